@@ -312,6 +312,7 @@ func ruleP7(c *Ctx) {
 			// direct statements of this block only
 			var add ast.Expr
 			appends, loopAppends := 0, 0
+			loopByIndex := false
 			var loopOver ast.Expr
 			for _, st := range stmts {
 				switch s := st.(type) {
@@ -345,6 +346,22 @@ func ruleP7(c *Ctx) {
 						}
 						return true
 					})
+				case *ast.ForStmt:
+					// for i := 0; i < len(S); i++ { append(…, S[i]) }: one element per byte of S
+					if _, ok := forwardIndexLoopOver(s, ""); ok {
+						if cond, ok := s.Cond.(*ast.BinaryExpr); ok {
+							if call, ok := cond.Y.(*ast.CallExpr); ok && len(call.Args) == 1 {
+								ast.Inspect(s.Body, func(n ast.Node) bool {
+									if as, ok := n.(*ast.AssignStmt); ok && isAppendStmt(as) {
+										loopAppends++
+										loopOver = call.Args[0]
+										loopByIndex = true
+									}
+									return true
+								})
+							}
+						}
+					}
 				}
 			}
 			if add == nil && appends == 0 && loopAppends == 0 {
@@ -370,7 +387,7 @@ func ruleP7(c *Ctx) {
 				over := types.ExprString(loopOver)
 				good := lenOf != "" && (over == "[]byte("+lenOf+")" || over == lenOf) && w == 1
 				// ranging over the string itself would iterate runes, not bytes
-				if over == lenOf {
+				if over == lenOf && !loopByIndex {
 					if isStringType(info.TypeOf(loopOver)) {
 						good = false
 					}
